@@ -925,18 +925,11 @@ impl Parse {
         // TODO_ZAIN: Take a look at which hashing function is being used
         let mut hasher = DefaultHasher::new();
 
-        let concatenated = format!(
-            "{}{}{}",
-            self.query,
-            self.num_params,
-            self.param_types
-                .iter()
-                .map(ToString::to_string)
-                .collect::<Vec<_>>()
-                .join(",")
-        );
-
-        concatenated.hash(&mut hasher);
+        // Hash the fields separately: concatenating them made e.g. ("... + 1", 1 param of type 0)
+        // and ("... + 11", no params) the same key.
+        self.query.hash(&mut hasher);
+        self.num_params.hash(&mut hasher);
+        self.param_types.hash(&mut hasher);
 
         hasher.finish()
     }
